@@ -12,13 +12,14 @@ import (
 func init() { Registry["C08"] = checkC08 }
 
 func checkC08(p *core.Prog, r *core.Report) {
-	r.Explanation = "Decides structural necessary conditions of clean-prefix recovery: (R1) the log readers (AofFile.ReadLock, ReadHeader, ReadLockData, ReadTail) never report success after a detected failure: no return of an error value that the path facts prove nil while another error was found non-nil, and ReadLock's success returns carry the full-record equality n == recordLen+2; (R2) ReadHeader succeeds only after n == 12, the magic and the version tests; opening for append truncates a file shorter than its 12-byte header before writing a new header; (R3) in LoadAofFile a failed value read returns the error without invoking the record callback for that record; the record's value blob is read before any skip of the record (so the sequential value file stays aligned); (R4) AofFile.Flush writes the record file before the value file on every path; (R5) value bytes are buffered (dwindex grows) only on paths where records are buffered too (windex > 0), because Close and the rotation path flush only when records are buffered. NOT decided: behaviour at each of the 64 residues, re-append alignment after a torn tail, a crash between the two writes, fsync timing - these need crash images."
+	r.Explanation = "Decides structural necessary conditions of clean-prefix recovery: (R1) the log readers (AofFile.ReadLock, ReadHeader, ReadLockData, ReadTail) never report success after a detected failure: no return of an error value that the path facts prove nil while another error was found non-nil, and ReadLock's success returns carry the full-record equality n == recordLen+2; (R2) ReadHeader succeeds only after n == 12, the magic and the version tests; opening for append truncates a file shorter than its 12-byte header before writing a new header; (R3) in LoadAofFile a failed value read returns the error without invoking the record callback for that record; the record's value blob is read before any skip of the record (so the sequential value file stays aligned); (R4) AofFile.Flush writes the record file before the value file on every path; (R5) value bytes are buffered (dwindex grows) only on paths where records are buffered too (windex > 0), because Close and the rotation path flush only when records are buffered. (R6) the readers never hand out the error of io.ReadFull / io.ReadAtLeast unmapped (a partly present item must read as io.EOF, the only value the loaders treat as end of log). NOT decided: behaviour at each of the 64 residues, re-append alignment after a torn tail, a crash between the two writes, fsync timing - these need crash images."
 	r.Assumptions = []string{"Go type checker and go/ssa are correct for /repo", "bufio.Reader.Read returns (n>0, nil) or (0, err)"}
 	c08R1(p, r)
 	c08R2(p, r)
 	c08R3(p, r)
 	c08R4(p, r)
 	c08R5(p, r)
+	c08R6(p, r)
 }
 
 func c08R1(p *core.Prog, r *core.Report) {
@@ -310,5 +311,85 @@ func c08R5(p *core.Prog, r *core.Report) {
 		})
 		ex.NoHist = true
 		ex.Run(fn, nil)
+	}
+}
+
+// c08R6: the loaders (LoadAofFile / LoadAofFiles / LoadAndInit) treat exactly
+// io.EOF from the record and value readers as "the log ends here" - that is
+// what turns a file cut inside its last item into a clean prefix. A reader
+// that reports a partly present item with another error value
+// (io.ErrUnexpectedEOF from io.ReadFull / io.ReadAtLeast) makes the next
+// start fail instead. So the error values the AofFile readers return come
+// from Read calls of the underlying reader (end of file = io.EOF), from
+// io.EOF itself, or are freshly made format errors - never straight from
+// io.ReadFull / io.ReadAtLeast.
+func c08R6(p *core.Prog, r *core.Report) {
+	const rule = "C08/R6"
+	r.Rule(rule, "the AofFile readers never return the error of io.ReadFull / io.ReadAtLeast unmapped (a partly present item must read as io.EOF, the only value the loaders treat as end of log)", 3)
+	for _, name := range []string{"server.(*AofFile).ReadHeader", "server.(*AofFile).ReadLock", "server.(*AofFile).ReadLockData", "server.(*AofFile).ReadTail"} {
+		fn := p.Func(name)
+		if fn == nil || fn.Blocks == nil {
+			continue
+		}
+		bad := ""
+		var origin func(v ssa.Value, depth int) string
+		origin = func(v ssa.Value, depth int) string {
+			if depth > 6 {
+				return ""
+			}
+			switch t := v.(type) {
+			case *ssa.Extract:
+				if c, ok := t.Tuple.(*ssa.Call); ok {
+					if callee := c.Common().StaticCallee(); callee != nil && callee.Pkg != nil && callee.Pkg.Pkg.Path() == "io" && (callee.Name() == "ReadFull" || callee.Name() == "ReadAtLeast") {
+						return "io." + callee.Name()
+					}
+				}
+			case *ssa.Phi:
+				for _, e := range t.Edges {
+					if o := origin(e, depth+1); o != "" {
+						return o
+					}
+				}
+			case *ssa.MakeInterface:
+				return origin(t.X, depth+1)
+			case *ssa.ChangeInterface:
+				return origin(t.X, depth+1)
+			}
+			return ""
+		}
+		pos := p.Pos(fn.Pos())
+		for _, b := range fn.Blocks {
+			for _, ins := range b.Instrs {
+				ret, ok := ins.(*ssa.Return)
+				if !ok || len(ret.Results) == 0 {
+					continue
+				}
+				ev := ret.Results[len(ret.Results)-1]
+				if o := origin(ev, 0); o != "" {
+					// mapped when the function compares the value with io.ErrUnexpectedEOF
+					mapped := false
+					for _, bb := range fn.Blocks {
+						for _, ii := range bb.Instrs {
+							if bo, ok := ii.(*ssa.BinOp); ok {
+								x := &core.X{Fr: &core.Frame{Fn: fn}, St: core.NewState()}
+								if strings.Contains(x.Canon(bo).S, "ErrUnexpectedEOF") {
+									mapped = true
+								}
+							}
+						}
+					}
+					if !mapped {
+						bad = o
+						pos = p.InstrPos(ins)
+					}
+				}
+			}
+		}
+		key := name + ": error identity"
+		if bad != "" {
+			r.Violate(rule, key, pos, "returns the error of "+bad+" as is: a partly present item is reported as io.ErrUnexpectedEOF, which the loaders do not treat as end of log - the next start fails instead of recovering the record prefix", nil)
+		} else {
+			r.Hold(rule, key, pos, "end of data is reported by the underlying Read (io.EOF)")
+		}
 	}
 }
